@@ -204,6 +204,16 @@ def object_shapes(nm: Namer) -> Dict[str, Callable[[T, Ctx], Optional[T]]]:
         fa, fb = dfield("a", x, c), dfield("b", INT, c)
         return fa and Obj("dataclass", nm("O"), (fa, fb), dep_req=(("a", ("b",)),))
 
+    def dep_req_undefined(x, c):
+        # the requiring field is always serialized, the required one can be omitted (Undefined): the serialization schema
+        # cannot promise it
+        return Obj(
+            "dataclass",
+            nm("O"),
+            (F("a", x), F("b", Uni((INT, Prim("undefined"))), default="Undefined", has_default=True, default_value=UNDEF)),
+            dep_req=(("a", ("b",)),),
+        )
+
     def flat_req(x, c):
         inner = Obj("dataclass", nm("I"), (F("x", x), dfield("y", INT, c)))
         return Obj("dataclass", nm("O"), (F("a", INT), F("inner", inner, flatten=True)))
